@@ -74,7 +74,7 @@ func (o Model) RebuildIndexes(pattern string) error {
 
 	// Drop existing index entries
 	for _, idx := range o.IndexSet.Indexes {
-		err := o.BadgerDB.DB.DropPrefix([]byte(idx.Name))
+		err := o.BadgerDB.DB.DropPrefix(idx.getQuery(nil))
 		if err != nil {
 			return err
 		}
